@@ -50,4 +50,29 @@ def listOffsetAnswer (p : ClusterPart) (ts : Int) : Int × Int × Int :=
     | some (t, o) => (0, t, o)
     | none => (0, -1, -1)
 
+/-- first version that has the response field on the wire — transcribed from the Kafka protocol guide (OffsetFetch
+v0–5, ListOffsets v1–5, OffsetCommit v0–7); the fake broker's hand-written encoders follow the same table -/
+def wireSince : List (String × Int) := [
+  ("offsetfetch.Response.ThrottleTimeMs", 3),
+  ("offsetfetch.Response.Topics", 0),
+  ("offsetfetch.Response.ErrorCode", 2),
+  ("offsetfetch.ResponsePartition.CommittedOffset", 0),
+  ("offsetfetch.ResponsePartition.ComittedLeaderEpoch", 5),
+  ("offsetfetch.ResponsePartition.Metadata", 0),
+  ("offsetfetch.ResponsePartition.ErrorCode", 0),
+  ("listoffsets.Response.ThrottleTimeMs", 2),
+  ("listoffsets.ResponsePartition.ErrorCode", 1),
+  ("listoffsets.ResponsePartition.Timestamp", 1),
+  ("listoffsets.ResponsePartition.Offset", 1),
+  ("listoffsets.ResponsePartition.LeaderEpoch", 4),
+  ("offsetcommit.Response.ThrottleTimeMs", 3),
+  ("offsetcommit.ResponsePartition.ErrorCode", 0)
+]
+
+/-- is the group-level failure of an OffsetFetch visible at the top level of the answer at this version? -/
+def offsetFetchTopLevelError (since : List (String × Int)) (apiVersion : Int) : Bool :=
+  match since.lookup "offsetfetch.Response.ErrorCode" with
+  | some v => decide (v ≤ apiVersion)
+  | none => false
+
 end KV.Spec.Offsets
